@@ -10,14 +10,63 @@ use proptest::prelude::*;
 
 pub struct C20;
 
+/// A backlog of more than 4 GiB: `packets` packets of `size` bytes are submitted to one sender, a few of them travel.
+#[derive(Clone, Debug, serde::Serialize, serde::Deserialize)]
+pub struct Backlog {
+    pub seed: u64,
+    pub packets: u16,
+    pub size: u32,
+    pub mode: u8,
+    pub ticks: u8,
+}
+
+#[derive(Clone, Debug, serde::Serialize, serde::Deserialize)]
+#[serde(untagged)]
+pub enum Case {
+    Pair(PairScenario),
+    Backlog { backlog: Backlog },
+}
+
+fn run_backlog(b: &Backlog) -> CaseResult {
+    let dir = DirCfg { pkt_win_log2: 12, frm_win_log2: 12, pkt_base: (b.seed as u32) & PKT_MASK, frm_base: (b.seed >> 32) as u32, alloc_limit: u32::MAX, bw_limit: 50_000_000 };
+    let sc = PairScenario { dirs: [dir.clone(), dir], keepalive_ms: None, seed: b.seed, zero_ch: 0, zero_mode: 1, links: [LinkCfg { latency_us: 1000, fates: vec![] }, LinkCfg { latency_us: 1000, fates: vec![] }], ticks: vec![], tail: None, premature_acks: Vec::new() };
+    let mut sim = SimPair::new(&sc);
+    sim.record_wire = false;
+    sim.record_stats = false;
+    let size = (b.size as usize).clamp(1, 65536 * FRAG);
+    let mut total: u64 = 0;
+    for k in 0..b.packets {
+        // (zero pages: the payloads are never written, so the backlog costs address space, not memory)
+        sim.hc[0].send(vec![0u8; size].into_boxed_slice(), (k % 4) as u8, mode_of(b.mode));
+        total += size as u64;
+        let got = sim.hc[0].send_buffer_size() as u64;
+        if got != total {
+            return CaseResult::fail("oracle:c20:backlog:not_exact", format!("after {} packets of {size} bytes were accepted by send() and nothing was acknowledged, send_buffer_size() = {got}; the total is {total}", k + 1));
+        }
+    }
+    // a little of it travels; the value may only fall by what the peer has acknowledged
+    let idle = EpAct { step: true, sends: Vec::new(), flushes: 1 };
+    let mut prev = total;
+    for _ in 0..b.ticks {
+        sim.run_tick(&Tick { dt_us: 10_000, acts: [idle.clone(), idle.clone()] });
+        let got = sim.hc[0].send_buffer_size() as u64;
+        let delivered: u64 = sim.trace.delivs[1].iter().map(|d| d.data.len() as u64).sum();
+        if got > prev || got + delivered < total {
+            return CaseResult::fail("oracle:c20:backlog:not_exact", format!("with {total} bytes accepted and {delivered} bytes delivered so far send_buffer_size() went from {prev} to {got}"));
+        }
+        prev = got;
+    }
+    CaseResult::ok(total > u32::MAX as u64, vec!["backlog_beyond_4_gib"])
+}
+
 impl Check for C20 {
-    type Case = PairScenario;
+    type Case = Case;
 
     fn id(&self) -> &'static str {
         "C20"
     }
 
-    fn strategy(&self, tier: Tier) -> BoxedStrategy<PairScenario> {
+    fn strategy(&self, tier: Tier) -> BoxedStrategy<Case> {
         let p = GenParams { max_ticks: tier.pick(150, 400), max_sends: 6, max_frags: tier.pick(4, 10), low_bandwidth: true, tail: true, modes: [3, 2, 2, 3], ..GenParams::default() };
         // one scenario in four also hands the senders forged ack frames whose packet window base names packets that
         // have not been sent yet (mostly the very next ones)
@@ -26,7 +75,11 @@ impl Check for C20 {
                 if let Some(pre) = pre {
                     sc.premature_acks = pre;
                 }
-                sc
+                // (a handful of cases per run: queue more than 4 GiB)
+                if sc.seed % 4000 == 1 {
+                    return Case::Backlog { backlog: Backlog { seed: sc.seed, packets: 46 + ((sc.seed >> 20) % 30) as u16, size: (65536 * FRAG) as u32 - ((sc.seed >> 40) % 3000) as u32, mode: (sc.seed >> 13) as u8 % 4, ticks: ((sc.seed >> 50) % 12) as u8 } };
+                }
+                Case::Pair(sc)
             })
             .boxed()
     }
@@ -36,7 +89,7 @@ impl Check for C20 {
             return ExtraResult::default();
         }
         // coverage-guided search over the same scenario space with the same oracle (harness/fuzz, target pair_oracles)
-        crate::props::pairfuzz::pair_fuzz_extra("C20", seed, 40_000, &|sc| self.run(sc), &|sc| serde_json::to_value(sc).unwrap_or_default())
+        crate::props::pairfuzz::pair_fuzz_extra("C20", seed, 40_000, &|sc| self.run(&Case::Pair(sc.clone())), &|sc| serde_json::to_value(sc).unwrap_or_default())
     }
 
     fn cases(&self, tier: Tier) -> u64 {
@@ -52,14 +105,18 @@ impl Check for C20 {
     }
 
     fn rule(&self) -> String {
-        "case = SimPair scenario (all packets >= 4 bytes) with all modes and sizes, ack loss / delay, TimeSensitive drops, window and allocation stalls, followed by a fair phase; one scenario in four also hands the senders forged ack frames without groups whose packet window base names a packet that has not been sent yet (1..3, rarely up to 3000, beyond the sender's next id - an acknowledgement of nothing, which must stay without effect also when that id comes into use). Model fed only by send() calls, by the sender's emitted data frames (which packet ids exist) and by the ack frames handed to the sender (accepted packet-window bases): with A = payload bytes of packets whose id an accepted base has passed, D = bytes of stale TimeSensitive submissions that were certainly discarded (a later submission has been emitted) and S = bytes of stale TimeSensitive submissions not yet emitted whose fate is not observable, submitted - A - D - S <= send_buffer_size() <= submitted - A - D at every snapshot (after every endpoint step and after every batch of sends / flushes), and exactly 0 at quiescence. Non-trivial = at least one TimeSensitive packet was discarded and at least one ack released two or more packets at once.".into()
+        "case = SimPair scenario (all packets >= 4 bytes) with all modes and sizes, ack loss / delay, TimeSensitive drops, window and allocation stalls, followed by a fair phase; a handful of cases per run queue 46-75 packets of the maximum packet size (more than 4 GiB in all; zero pages, never written) and compare send_buffer_size() with the exact total after every send(); one scenario in four also hands the senders forged ack frames without groups whose packet window base names a packet that has not been sent yet (1..3, rarely up to 3000, beyond the sender's next id - an acknowledgement of nothing, which must stay without effect also when that id comes into use). Model fed only by send() calls, by the sender's emitted data frames (which packet ids exist) and by the ack frames handed to the sender (accepted packet-window bases): with A = payload bytes of packets whose id an accepted base has passed, D = bytes of stale TimeSensitive submissions that were certainly discarded (a later submission has been emitted) and S = bytes of stale TimeSensitive submissions not yet emitted whose fate is not observable, submitted - A - D - S <= send_buffer_size() <= submitted - A - D at every snapshot (after every endpoint step and after every batch of sends / flushes), and exactly 0 at quiescence. Non-trivial = at least one TimeSensitive packet was discarded and at least one ack released two or more packets at once.".into()
     }
 
     fn assumptions(&self) -> Vec<String> {
         vec!["stale TimeSensitive packets are discarded lazily, so between staleness and the next emission attempt the exact value is not observable; the interval collapses to equality whenever no such packet is outstanding".into()]
     }
 
-    fn run(&self, sc: &PairScenario) -> CaseResult {
+    fn run(&self, case: &Case) -> CaseResult {
+        let sc = match case {
+            Case::Pair(sc) => sc,
+            Case::Backlog { backlog } => return run_backlog(backlog),
+        };
         let mut sc = sc.clone();
         force_identity_sizes(&mut sc);
         sc.normalize();
